@@ -293,7 +293,25 @@ pub fn inputs(alpha: &[u16], maxlen: usize) -> Vec<Vec<u16>> {
     }
     out
 }
-fn js(x: &str) -> String { format!("{:?}", x) }
+
+pub fn js(x: &str) -> String {
+    let mut s = String::with_capacity(x.len() + 2);
+    s.push('"');
+    for c in x.chars() {
+        match c {
+            '"' => s.push_str("\\\""),
+            '\\' => s.push_str("\\\\"),
+            '\n' => s.push_str("\\n"),
+            '\r' => s.push_str("\\r"),
+            '\t' => s.push_str("\\t"),
+            c if (c as u32) < 0x20 || c as u32 == 0x7F => s.push_str(&format!("\\u{:04x}", c as u32)),
+            c => s.push(c),
+        }
+    }
+    s.push('"');
+    s
+}
+
 
 pub fn run(progs: &[Prog]) {
     std::panic::set_hook(Box::new(|_| {}));
